@@ -309,7 +309,7 @@ func runC15(c *Ctx) {
 	okMu := false
 	if lock != nil {
 		for _, in := range instrsOf(inc) {
-			if d, ok := in.(*ssa.Defer); ok && calleeName(&d.Call) == "(*sync.Mutex).Unlock" && describe(argsOf(d)[0]) == describe(argsOf(lock)[0]) && precedes(lock, d) {
+			if d, ok := in.(*ssa.Defer); ok && calleeName(&d.Call) == "(*sync.Mutex).Unlock" && describeArg(d, 0) == describeArg(lock, 0) && precedes(lock, d) {
 				okMu = true
 			}
 		}
